@@ -3,6 +3,7 @@ from __future__ import annotations
 import itertools
 import logging
 import math
+import numbers
 import pickle
 import struct
 from collections import deque
@@ -454,6 +455,17 @@ class Base:
             return b"f" + struct.pack("d", arg)
         if isinstance(arg, tuple):
             return b"t" + Base._seq_serialize(arg)
+        if isinstance(arg, list):
+            return b"l" + Base._seq_serialize(arg)
+        if isinstance(arg, dict):
+            # (containers by content too: their hash() collides exactly like that of their elements)
+            return b"d" + Base._seq_serialize(sorted((Base._arg_serialize(k), Base._arg_serialize(v)) for k, v in arg.items()))
+        if isinstance(arg, set | frozenset):
+            return b"e" + Base._seq_serialize(sorted(Base._arg_serialize(x) for x in arg))
+        if isinstance(arg, bytes):
+            return b"b" + arg
+        if isinstance(arg, numbers.Rational):
+            return b"q" + Base._seq_serialize((arg.numerator, arg.denominator))
         if isinstance(arg, claripy.fp.FSort):
             # (by content, not by hash(): the hash of a str changes from process to process, and with it the hash of
             # every float expression - which a pickled solver uses as a dictionary key)
